@@ -129,6 +129,24 @@ def real(name: str):
     return _real[name]
 
 
+class _RealCallError(Exception):
+    """Wrapper for a non-OSError exception raised by the REAL function (the caller passed bad arguments): it belongs to the
+    code under test and is re-raised unchanged by _guard."""
+
+    def __init__(self, inner):
+        super().__init__(repr(inner))
+        self.inner = inner
+
+
+def _call_real(fn, *args, **kw):
+    try:
+        return fn(*args, **kw)
+    except (OSError, SimKilled, SimInterrupt, HarnessError):
+        raise
+    except Exception as e:  # noqa: BLE001
+        raise _RealCallError(e) from None
+
+
 class _ApiTypeError(TypeError):
     """TypeError that the file API itself is specified to raise (e.g. bytes written to a text file)."""
 
@@ -144,6 +162,8 @@ def _guard(fn):
             return fn(self, *args, **kw)
         except (SimKilled, SimInterrupt, OSError, HarnessError, ValueError, UnicodeError, _ApiTypeError):
             raise
+        except _RealCallError as w:
+            raise w.inner from None
         except Exception as e:  # noqa: BLE001
             sim = self if isinstance(self, Simulation) else getattr(self, "_sim", None)
             if sim is not None:
@@ -626,7 +646,7 @@ class Simulation:
             if fd not in a.fds:
                 if a.dead:
                     raise SimKilled()
-                return fn(*args, **kw)
+                return _call_real(fn, *args, **kw)
             path = a.fds[fd]["path"]
             if name == "write":
                 detail = len(args[1])
@@ -639,7 +659,7 @@ class Simulation:
                 if fd not in a.fds:
                     if a.dead:
                         raise SimKilled()
-                    return fn(*args, **kw)
+                    return _call_real(fn, *args, **kw)
                 path = a.fds[fd]["path"]
             else:
                 if first is None and name in ("scandir", "listdir"):
@@ -647,9 +667,9 @@ class Simulation:
                 try:
                     path = self.abspath(first)
                 except TypeError:
-                    return fn(*args, **kw)
+                    return _call_real(fn, *args, **kw)
                 if kw.get("dir_fd") is not None or kw.get("src_dir_fd") is not None:
-                    return fn(*args, **kw)
+                    return _call_real(fn, *args, **kw)
                 if name in ("replace", "rename", "link", "symlink"):
                     second = args[1] if len(args) > 1 else kw.get("dst")
                     path2 = self.abspath(second)
@@ -667,7 +687,7 @@ class Simulation:
                 if self.record_unscoped:
                     self.unscoped.append((a.id, nm, path, path2))
                 self._jail(a, nm, path)
-                return fn(*args, **kw)
+                return _call_real(fn, *args, **kw)
             if name == "open":
                 flags = args[1] if len(args) > 1 else kw.get("flags", 0)
                 detail = flags
@@ -742,7 +762,7 @@ class Simulation:
                 pre = None
         a.expected_audit = (name, path, path2)
         try:
-            res = fn(*args, **kw)
+            res = _call_real(fn, *args, **kw)
         except OSError as e:
             op.outcome = "!" + (_errno.errorcode.get(e.errno, str(e.errno)) if e.errno else "OSError")
             a.expected_audit = None
